@@ -14,10 +14,11 @@ PROPS = {
         "tests": [
             {"name": "TestC01", "noasm": True, "quick": 4000, "thorough": 60000},
             {"name": "TestC01Ex", "kind": "plain"},
+            {"name": "TestBig", "kind": "plain", "levels": "one", "env": {"VERIF_BIG": "C01", "VERIF_HANG_SECONDS": "1200"}},
         ],
         "fuzz": [{"name": "FuzzC01RoundTrip", "time": "90s"}],
         "rule": "cases = (data recipe, constructor {NewWriter, 4K window, NewWriterDict}, level -2..9, Write/Flush partition) drawn by rapid, "
-                "plus an enumeration of lengths around every buffer threshold; each runs at every runnable acceleration level in its own process. "
+                "plus an enumeration of lengths around every buffer threshold and a token-limit family; each runs at every runnable acceleration level in its own process; plus one stream longer than 4 GiB (three in the thorough tier) generated and verified on the fly. "
                 "Oracle: emitted bytes are exactly one complete RFC 1951 stream (reference inflater end position == length), decoded identically by "
                 "the reference inflater, compress/flate and fastgo's Reader; Writer buffers guarded by canaries. "
                 "Non-trivial = at least one data byte and the stream was produced by fastgo's own compressor (not delegated to compress/flate); distinct = distinct case digest.",
@@ -143,9 +144,10 @@ PROPS = {
     },
     "C06": {
         "level": "exploration",
-        "tests": [{"name": "TestC06", "quick": 4000, "thorough": 60000}],
+        "tests": [{"name": "TestC06", "quick": 4000, "thorough": 60000},
+                  {"name": "TestBig", "kind": "plain", "levels": "one", "env": {"VERIF_BIG": "C06", "VERIF_HANG_SECONDS": "1200"}}],
         "rule": "cases = (gzip | zlib) x direction (fastgo Writer -> standard Reader, standard Writer -> fastgo Reader, fastgo -> fastgo) x level in {-2,-1,0,1,2,3,6,9} x payload recipe x Write/Flush partition x gzip header (Latin-1 name/comment of 0..511 bytes, extra nil/empty/up to 65535 bytes, mtime 0 or any uint32, OS byte) or zlib dictionary x optional earlier use of the Writer followed by Reset x Read sizes x source (bytes.Reader or *bufio.Reader of 16..64Ki), drawn by rapid. "
-                "Oracle: the reference container parser finds exactly one member whose payload is the data and whose trailer equals CRC-32/length (gzip) or Adler-32 (zlib) computed by the harness; fastgo's header bytes equal the standard library Writer's for the same header; the reading side returns the payload, equal header fields and io.EOF. "
+                "Plus gzip members longer than 4 GiB (length field wraps), produced and verified on the fly. Oracle: the reference container parser finds exactly one member whose payload is the data and whose trailer equals CRC-32/length (gzip) or Adler-32 (zlib) computed by the harness; fastgo's header bytes equal the standard library Writer's for the same header; the reading side returns the payload, equal header fields and io.EOF. "
                 "Non-trivial = payload non-empty and (accelerated level, optional header field, dictionary or Writer reuse).",
         "assumptions": COMMON_ASSUME,
     },
